@@ -113,7 +113,7 @@ def _case(draw):
     colmode = rng.integers(0, 4, size=n)
     J[:, colmode == 1] = np.abs(J[:, colmode == 1])
     J[:, colmode == 2] = -np.abs(J[:, colmode == 2])
-    if draw(st.integers(0, 5)) == 0:
+    if draw(st.sampled_from([True] + [False] * 5)):
         J[:, rng.integers(0, n)] = 0.0
     J = J * 10.0 ** draw(st.integers(-3, 3))
     lk = draw(st.sampled_from(["none", "zeros", "ones", "random", "random", "binary"]))
